@@ -19,6 +19,7 @@ from ..engine import LVec
 from ..verdict import Result
 
 LEVEL = "exploration"
+AWKWARD_REGISTRATION_MIX = True
 RULE = ("vector-space / dot / cross / unit laws on the public API and operators for every ordered pair of coordinate "
         "systems of equal dimension (4 + 36 + 144 pairs, third operand in a rotating system), both flavors, scalar "
         "factors of either sign; a cell is (law, system a, system b, backend), non-trivial when both sides were "
